@@ -82,7 +82,7 @@ func (s *Sim) NewHistory(base *block.Block) *History {
 	if base.CreationDate > h.Now {
 		h.Now = base.CreationDate
 	}
-	for _, a := range []struct{ id, n string }{{MinerSC, "minersc"}, {StorageSC, "storagesc"}, {FaucetSC, "faucetsc"}, {ZcnSC, "zcnsc"}, {VestingSC, "vestingsc"}, {MultisigSC, "multisigsc"}, {s.Owner.ID, "owner"}} {
+	for _, a := range []struct{ id, n string }{{MinerSC, "minersc"}, {StorageSC, "storagesc"}, {FaucetSC, "faucetsc"}, {ZcnSC, "zcnsc"}, {VestingSC, "vestingsc"}, {MultisigSC, "multisigsc"}, {PuppetSC, "puppetsc"}, {s.Owner.ID, "owner"}} {
 		h.Know(a.id, a.n)
 	}
 	for i, c := range s.Clients {
